@@ -148,6 +148,10 @@ pub(crate) fn is_plain_safe(s: &str) -> bool {
     if is_ambiguous(s) {
         return false;
     }
+    // This check is used for mapping keys, where a plain `<<` is the merge key.
+    if s == "<<" {
+        return false;
+    }
     let bytes = s.as_bytes();
     // Leading white space is not part of a plain scalar, and neither is a trailing space:
     // the reader would drop it.
